@@ -127,6 +127,256 @@ fn c10_whitespace_marker_bytes() {
     kani::cover!(b.is_none());
 }
 
+// ---------------------------------------------------------------------------
+// C10: whitespace-rule kernels of the lexer on symbolic text.
+// Every harness builds its text from symbolic bytes over a small ASCII alphabet (stated per harness) with
+// a symbolic length, calls the real private function and compares with a byte-loop reference of the rule
+// the property names.
+// ---------------------------------------------------------------------------
+
+macro_rules! sym_text {
+    ($buf:ident, $len:ident, $n:expr, [$($sym:expr),*]) => {
+        let mut $buf = [0u8; $n];
+        let $len: usize = kani::any();
+        kani::assume($len <= $n);
+        {
+            let mut i = 0;
+            while i < $n {
+                let c: u8 = kani::any();
+                kani::assume(false $(|| c == $sym)*);
+                $buf[i] = c;
+                i += 1;
+            }
+        }
+    };
+}
+
+fn is_hws(b: u8) -> bool {
+    b == b' ' || b == b'\t'
+}
+
+/// length of `s` after removing trailing horizontal whitespace
+fn ref_trim_hws(s: &[u8]) -> usize {
+    let mut n = s.len();
+    while n > 0 && is_hws(s[n - 1]) {
+        n -= 1;
+    }
+    n
+}
+
+fn ws_cfg(keep: bool, lstrip: bool, trim: bool) -> WhitespaceConfig {
+    WhitespaceConfig { keep_trailing_newline: keep, lstrip_blocks: lstrip, trim_blocks: trim }
+}
+
+fn tokenizer_on<'s>(source: &'s str, offset: usize, ws: WhitespaceConfig) -> Tokenizer<'s> {
+    Tokenizer {
+        source,
+        filename: "f",
+        stack: Vec::new(),
+        current_line: 1,
+        current_col: 0,
+        current_offset: offset,
+        paren_balance: 0,
+        trim_leading_whitespace: false,
+        pending_start_marker: None,
+        syntax_config: SyntaxConfig::default(),
+        ws_config: ws,
+    }
+}
+
+// @verif props=C10 tier=quick cap=900 group=core fns=lstrip_block
+/// lstrip_blocks rule, text side: for EVERY lead text of up to 4 bytes over {space, tab, LF, CR, 'a'} the
+/// part removed in front of a block/comment tag is a suffix consisting of spaces and tabs only, it is
+/// removed only if what precedes it is the start of the text or a line feed, and then all of it is removed.
+#[kani::proof]
+#[kani::unwind(7)]
+fn c10_lstrip_block_removes_only_line_leading_hws() {
+    sym_text!(buf, len, 4, [b' ', b'\t', b'\n', b'\r', b'a']);
+    let s = unsafe { core::str::from_utf8_unchecked(&buf[..len]) };
+    let r = lstrip_block(s);
+    // a prefix of the input
+    assert!(r.as_ptr() == s.as_ptr() && r.len() <= len);
+    let k = ref_trim_hws(&buf[..len]);
+    // only spaces and tabs are ever removed
+    assert!(r.len() >= k);
+    let at_line_start = k == 0 || buf[k - 1] == b'\n';
+    let after_cr = k > 0 && buf[k - 1] == b'\r';
+    if at_line_start {
+        assert!(r.len() == k);
+    } else if !after_cr {
+        // not at the start of a line: nothing is removed
+        assert!(r.len() == len);
+    }
+    kani::cover!(len == 4 && r.len() == 2);
+    kani::cover!(len == 4 && r.len() == 4 && k < 4);
+}
+
+// @verif props=C10 tier=quick cap=900 group=core fns=should_lstrip_block
+/// lstrip_blocks rule, tag side: for EVERY text of up to 4 bytes in front of a tag, the tag's line-leading
+/// whitespace is stripped iff the setting is on, the tag is a block or comment tag (never a variable tag),
+/// and only spaces/tabs lie between the start of the line (or of the template) and the tag.
+#[kani::proof]
+#[kani::unwind(7)]
+fn c10_should_lstrip_only_at_line_start() {
+    sym_text!(buf, len, 4, [b' ', b'\t', b'\n', b'\r', b'a', b'}']);
+    let s = unsafe { core::str::from_utf8_unchecked(&buf[..len]) };
+    let flag: bool = kani::any();
+    let which: u8 = kani::any();
+    kani::assume(which < 3);
+    let marker = match which {
+        0 => StartMarker::Variable,
+        1 => StartMarker::Block,
+        _ => StartMarker::Comment,
+    };
+    let got = should_lstrip_block(flag, marker, s);
+    let k = ref_trim_hws(&buf[..len]);
+    let line_start = k == 0 || buf[k - 1] == b'\n' || buf[k - 1] == b'\r';
+    assert!(got == (flag && which != 0 && line_start));
+    kani::cover!(got && len == 4 && k == 2);
+    kani::cover!(!got && flag && which == 1);
+}
+
+// @verif props=C10 tier=quick cap=900 group=core fns=Tokenizer::new
+/// Trailing-newline rule: for EVERY source of up to 4 bytes over {LF, CR, 'a', space} the tokenizer's text is
+/// the source itself when keep_trailing_newline is set, and otherwise the source minus exactly one trailing
+/// line ending (LF, CR LF or CR) - never more, and nothing else is removed.
+#[kani::proof]
+#[kani::unwind(7)]
+fn c10_trailing_newline_rule() {
+    sym_text!(buf, len, 4, [b'\n', b'\r', b'a', b' ']);
+    let s = unsafe { core::str::from_utf8_unchecked(&buf[..len]) };
+    let keep: bool = kani::any();
+    let t = Tokenizer::new(s, "f", false, SyntaxConfig::default(), ws_cfg(keep, kani::any(), kani::any()));
+    let src = t.source();
+    assert!(src.as_ptr() == s.as_ptr());
+    let b = &buf[..len];
+    let expect = if keep {
+        len
+    } else if len >= 2 && b[len - 2] == b'\r' && b[len - 1] == b'\n' {
+        len - 2
+    } else if len >= 1 && (b[len - 1] == b'\n' || b[len - 1] == b'\r') {
+        len - 1
+    } else {
+        len
+    };
+    assert!(src.len() == expect);
+    kani::cover!(!keep && len == 4 && expect == 2);
+    kani::cover!(keep && len == 4);
+    core::mem::forget(t);
+}
+
+// @verif props=C10 tier=quick cap=900 group=core fns=Tokenizer::skip_newline_if_trim_blocks,Tokenizer::handle_tail_ws,Tokenizer::advance
+/// trim_blocks rule and the '+'/'-' end markers: after a block or comment tag, for EVERY following text of up
+/// to 3 bytes: with no marker and trim_blocks on exactly one line ending (LF, CR LF or CR) is skipped, with
+/// trim_blocks off nothing; '+' never skips anything; '-' skips nothing here but arms whitespace removal.
+#[kani::proof]
+#[kani::unwind(6)]
+fn c10_trim_blocks_single_newline() {
+    sym_text!(buf, len, 3, [b'\n', b'\r', b'a', b' ']);
+    let s = unsafe { core::str::from_utf8_unchecked(&buf[..len]) };
+    let trim: bool = kani::any();
+    let which: u8 = kani::any();
+    kani::assume(which < 3);
+    let ws = match which {
+        0 => Whitespace::Default,
+        1 => Whitespace::Preserve,
+        _ => Whitespace::Remove,
+    };
+    let mut t = tokenizer_on(s, 0, ws_cfg(kani::any(), kani::any(), trim));
+    t.handle_tail_ws(ws);
+    let b = &buf[..len];
+    let expect = if which != 0 || !trim {
+        0
+    } else if len >= 2 && b[0] == b'\r' && b[1] == b'\n' {
+        2
+    } else if len >= 1 && (b[0] == b'\n' || b[0] == b'\r') {
+        1
+    } else {
+        0
+    };
+    assert!(t.current_offset == expect);
+    assert!(t.trim_leading_whitespace == (which == 2));
+    kani::cover!(expect == 2);
+    kani::cover!(which == 1 && trim && len >= 1 && b[0] == b'\n');
+    core::mem::forget(t);
+}
+
+// @verif props=C10 tier=quick cap=900 group=core fns=find_start_marker_memchr,Whitespace::from_byte
+/// Tag detection with the default delimiters: for EVERY text of up to 5 bytes over {'{', '%', '#', '-', '+', 'a'}
+/// the reported start marker is the FIRST position holding "{{", "{%" or "{#", its kind matches the second
+/// byte, the marker length includes a directly following '-'/'+' and nothing else; no marker is reported iff
+/// there is none - a lone '{' or text in front is never taken for a tag.
+#[kani::proof]
+#[kani::unwind(8)]
+fn c10_find_start_marker_first_and_exact() {
+    sym_text!(buf, len, 5, [b'{', b'%', b'#', b'-', b'+', b'a']);
+    let s = unsafe { core::str::from_utf8_unchecked(&buf[..len]) };
+    let got = find_start_marker_memchr(s);
+    let b = &buf[..len];
+    // reference: first i with b[i]=='{' and b[i+1] in "{%#"
+    let mut first: Option<usize> = None;
+    let mut i = 0;
+    while i + 1 < len {
+        if first.is_none() && b[i] == b'{' && (b[i + 1] == b'{' || b[i + 1] == b'%' || b[i + 1] == b'#') {
+            first = Some(i);
+        }
+        i += 1;
+    }
+    match (got, first) {
+        (None, None) => {}
+        (Some((pos, marker, mlen, ws)), Some(f)) => {
+            assert!(pos == f);
+            let kind_ok = match b[f + 1] {
+                b'{' => marker == StartMarker::Variable,
+                b'%' => marker == StartMarker::Block,
+                _ => marker == StartMarker::Comment,
+            };
+            assert!(kind_ok);
+            let next = if f + 2 < len { Some(b[f + 2]) } else { None };
+            match next {
+                Some(b'-') => assert!(ws == Whitespace::Remove && mlen == 3),
+                Some(b'+') => assert!(ws == Whitespace::Preserve && mlen == 3),
+                _ => assert!(ws == Whitespace::Default && mlen == 2),
+            }
+        }
+        _ => assert!(false),
+    }
+    kani::cover!(matches!(got, Some((2, StartMarker::Comment, 3, Whitespace::Remove))));
+    kani::cover!(got.is_none() && len == 5 && b[4] == b'{');
+}
+
+// @verif props=C10 tier=quick cap=1200 group=core fns=Tokenizer::tokenize_root,find_start_marker,Tokenizer::advance
+/// Text is verbatim: for EVERY source of up to 4 bytes over {'{', '}', '%', space, LF, 'a'} that contains no tag
+/// start, under EVERY combination of lstrip_blocks / trim_blocks, the first token is TemplateData holding
+/// exactly the whole source (same bytes, same length), and an empty source yields no token.
+#[kani::proof]
+#[kani::unwind(7)]
+fn c10_text_without_tags_is_verbatim() {
+    sym_text!(buf, len, 4, [b'{', b'}', b'%', b' ', b'\n', b'a']);
+    let b = &buf[..len];
+    let mut i = 0;
+    while i + 1 < len {
+        kani::assume(!(b[i] == b'{' && (b[i + 1] == b'{' || b[i + 1] == b'%')));
+        i += 1;
+    }
+    let s = unsafe { core::str::from_utf8_unchecked(b) };
+    let mut t = tokenizer_on(s, 0, ws_cfg(true, kani::any(), kani::any()));
+    let r = t.tokenize_root();
+    match r {
+        Ok(ControlFlow::Break((Token::TemplateData(d), sp))) => {
+            assert!(len > 0);
+            assert!(d.as_ptr() == s.as_ptr() && d.len() == len);
+            assert!(sp.start_offset == 0 && sp.end_offset as usize == len);
+        }
+        Ok(ControlFlow::Continue(())) => assert!(len == 0),
+        _ => assert!(false),
+    }
+    assert!(t.current_offset == len);
+    kani::cover!(len == 4 && b[3] == b'{');
+    kani::cover!(len == 0);
+    core::mem::forget(t);
+}
+
 #[cfg(test)]
 mod playback {
     use super::*;
